@@ -404,3 +404,34 @@ def cap_boundary_pinched(polys, origin, normal, scale):
             deg[a] += 1
             deg[b] += 1
     return any(v > 2 for v in deg.values())
+
+
+def winding_number(P, V, F):
+    """generalised winding number of the closed oriented surface (V, F) at the points P (k,3): sum of the signed
+    solid angles of all triangles (van Oosterom & Strackee) / 4 pi.  1 inside a solid, 0 outside."""
+    P = np.asarray(P, dtype=np.float64).reshape((-1, 3))
+    T = np.asarray(V, dtype=np.float64)[np.asarray(F)]
+    a = T[None, :, 0, :] - P[:, None, :]
+    b = T[None, :, 1, :] - P[:, None, :]
+    c = T[None, :, 2, :] - P[:, None, :]
+    la, lb, lc = np.linalg.norm(a, axis=2), np.linalg.norm(b, axis=2), np.linalg.norm(c, axis=2)
+    num = np.einsum("ijk,ijk->ij", a, np.cross(b, c))
+    den = la * lb * lc + np.einsum("ijk,ijk->ij", a, b) * lc + np.einsum("ijk,ijk->ij", b, c) * la + np.einsum("ijk,ijk->ij", c, a) * lb
+    return (2.0 * np.arctan2(num, den)).sum(axis=1) / (4.0 * np.pi)
+
+
+def edge_imbalance(F):
+    """closed and consistently wound in the homological sense: every edge is used as often in one direction as in the
+    other (2 faces per edge for a manifold; 4 where two parts of a solid touch along an edge, which a plane cut through
+    a re-entrant edge legitimately produces).  -> dict edge -> (n forward, n backward) of the edges that are not"""
+    F = np.asarray(F, dtype=np.int64).reshape((-1, 3))
+    c = Counter()
+    for a, b, d in F.tolist():
+        c[(a, b)] += 1
+        c[(b, d)] += 1
+        c[(d, a)] += 1
+    bad = {}
+    for (a, b), k in c.items():
+        if a != b and c.get((b, a), 0) != k:
+            bad[(min(a, b), max(a, b))] = (c.get((min(a, b), max(a, b)), 0), c.get((max(a, b), min(a, b)), 0))
+    return bad
